@@ -13,7 +13,7 @@ typedef Gudhi::cubical_complex::Bitmap_cubical_complex_periodic_boundary_conditi
 typedef Gudhi::cubical_complex::Bitmap_cubical_complex<PBase> Periodic;
 
 template <class Cx>
-static void run_on(vh::Case& c, Cx& cx, const c02cub::Grid& G, bool distinct, bool multi, const std::string& sig0) {
+static void run_on(vh::Case& c, Cx& cx, const c02cub::Grid& G, bool distinct, bool multi, const std::string& sig0, bool with_inf) {
   Exposure E;
   std::vector<std::size_t> handles;
   for (auto sh : cx.filtration_simplex_range()) handles.push_back(sh);
@@ -37,7 +37,8 @@ static void run_on(vh::Case& c, Cx& cx, const c02cub::Grid& G, bool distinct, bo
   std::string why;
   if (!E.valid(why)) { c.violation("exposure.order_not_a_filtration", sig0, why); return; }
   if ((int)cx.dimension() != E.dim) { c.violation("exposure.dimension", sig0, "dimension()=" + vh::str(cx.dimension())); return; }
-  run_tuples(c, cx, E, nullptr, distinct, multi, sig0);
+  // cells at +infinity: only with min_interval_length >= 0 (what [inf,inf) means for a negative minimum length is left open)
+  run_tuples(c, cx, E, nullptr, distinct, multi, sig0, !with_inf);
 }
 
 static void run_cubical(vh::Case& c, bool multi) {
@@ -45,32 +46,43 @@ static void run_cubical(vh::Case& c, bool multi) {
   const bool periodic_class = r.chance(1, 2);
   int d = 1 + (int)r.below(3);
   if (r.chance(1, 12)) d = 4;
+  if (r.chance(1, 40)) d = 5;
+  const bool vertex_input = r.chance(1, 3);   // values given on the vertices (input_top_cells = false) instead of the top cells
+  const bool with_inf = r.chance(1, 6);       // some input values are +infinity ("missing" cells)
   std::vector<int> n(d); std::vector<char> per(d, 0);
   for (;;) {
-    size_t cells = 1, tops = 1;
+    size_t cells = 1;
     for (int i = 0; i < d; ++i) {
       per[i] = periodic_class && r.chance(1, 2);
-      n[i] = per[i] ? 3 + (int)r.below(2) : 1 + (int)r.below(d == 4 ? 3 : 5);
-      cells *= per[i] ? 2 * n[i] : 2 * n[i] + 1; tops *= n[i];
+      n[i] = per[i] ? 1 + (int)r.below(4) : 1 + (int)r.below(d >= 5 ? 2 : d == 4 ? 3 : 5);   // periodic sides of 1 and 2 cells included
+      cells *= per[i] ? 2 * n[i] : 2 * n[i] + 1;
     }
     if (cells <= 1500) break;
   }
-  size_t tops = 1; for (int x : n) tops *= x;
-  std::vector<double> top(tops);
+  // sizes of the input: top cells per direction, or vertices per direction (n+1, n in a periodic direction)
+  std::vector<unsigned> sizes(d); size_t count = 1;
+  for (int i = 0; i < d; ++i) { sizes[i] = vertex_input ? (per[i] ? n[i] : n[i] + 1) : n[i]; count *= sizes[i]; }
+  std::vector<double> in(count);
   bool distinct = false;
   int mode = (int)r.below(6);
-  if (mode == 0) { std::vector<int> perm(tops); for (size_t i = 0; i < tops; ++i) perm[i] = (int)i; r.shuffle(perm); for (size_t i = 0; i < tops; ++i) top[i] = perm[i]; distinct = false; }
-  else { static const int Ls[] = {1, 2, 3, 5, 9}; int L = Ls[mode - 1]; for (auto& v : top) v = 0.5 * (double)r.below(L); }
-  std::vector<unsigned> dims(n.begin(), n.end());
+  if (mode == 0) { std::vector<int> perm(count); for (size_t i = 0; i < count; ++i) perm[i] = (int)i; r.shuffle(perm); for (size_t i = 0; i < count; ++i) in[i] = perm[i]; distinct = false; }
+  else { static const int Ls[] = {1, 2, 3, 5, 9}; int L = Ls[mode - 1]; for (auto& v : in) v = 0.5 * (double)r.below(L); }
+  bool has_inf = false;
+  if (with_inf) { unsigned den = 2 + (unsigned)r.below(6); for (auto& v : in) if (r.chance(1, den)) { v = kInf; has_inf = true; } }
   std::vector<bool> dirs(per.begin(), per.end());
   std::string mask; for (char b : per) mask += b ? '1' : '0';
-  c.log(std::string("cubical class=") + (periodic_class ? "periodic" : "plain") + " sizes=" + vh::vstr(n) + " periodic=" + mask + " top_cells=" + vh::vstr(top));
+  c.log(std::string("cubical class=") + (periodic_class ? "periodic" : "plain") + " sizes=" + vh::vstr(n) + " periodic=" + mask +
+        (vertex_input ? " vertex_values=" : " top_cells=") + vh::vstr(in));
   c02cub::Grid G(n, per);
-  const std::string sig0 = std::string("cx=") + (periodic_class ? "cubical_periodic" : "cubical_plain") + ",src=cubical";
+  const std::string sig0 = std::string("cx=") + (periodic_class ? "cubical_periodic" : "cubical_plain") + ",src=cubical" + (vertex_input ? ",from_vertices" : "") + (has_inf ? ",infinite_cells" : "");
   c.count(periodic_class ? "complex.cubical_periodic" : "complex.cubical_plain");
   if (std::count(per.begin(), per.end(), (char)1)) c.count("cubical.with_periodic_direction");
-  if (periodic_class) { Periodic cx(dims, top, dirs); run_on(c, cx, G, distinct, multi, sig0); }
-  else { Plain cx(dims, top); run_on(c, cx, G, distinct, multi, sig0); }
+  for (int i = 0; i < d; ++i) if (per[i] && n[i] <= 2) { c.count("cubical.periodic_side_" + vh::str(n[i])); }
+  if (vertex_input) c.count("cubical.from_vertices");
+  if (has_inf) c.count("cubical.with_infinite_cells");
+  if (d == 5) c.count("cubical.dim5");
+  if (periodic_class) { Periodic cx(sizes, in, dirs, !vertex_input); run_on(c, cx, G, distinct, multi, sig0, has_inf); }
+  else { Plain cx(sizes, in, !vertex_input); run_on(c, cx, G, distinct, multi, sig0, has_inf); }
 }
 
 VH_CONFIG("cub_zp", [](vh::Case& c) { run_cubical(c, false); });
